@@ -8,7 +8,7 @@ import traceback
 import z3
 
 from .. import env
-from ..report import ERROR, FAILED, PROVED, ob
+from ..report import ERROR, FAILED, PROVED, UNDECIDED, ob
 from . import engine as E
 
 
@@ -36,20 +36,25 @@ def verify(contract, module, qualname, variant=None, timeout_ms=10000):
         out.append(ob(oid, fnid, st, "V", backend, dt, detail, None, {"line": line}))
     # vacuity: requires + each cover must be satisfiable
     entry = eng.entry
+
+    def sat_check(extra):
+        # a vacuous precondition is a defect of the CONTRACT (checker error), a solver timeout is undecided: neither is a verdict on the code
+        for budget in (timeout_ms, 6 * timeout_ms):
+            s = z3.Solver()
+            s.set("timeout", budget)
+            s.add(*entry.pc)
+            s.add(*extra)
+            r = s.check()
+            if r != z3.unknown:
+                break
+        return r, (PROVED if r == z3.sat else ERROR if r == z3.unsat else UNDECIDED)
     for i, cov in enumerate(contract.covers):
-        s = z3.Solver()
-        s.set("timeout", timeout_ms)
-        s.add(*entry.pc)
-        s.add(eng.spec_bool(cov, entry))
-        r = s.check()
-        out.append(ob("%s:cover:%d" % (fnid, i), fnid, PROVED if r == z3.sat else FAILED, "V", "z3", 0.0,
+        r, status = sat_check([eng.spec_bool(cov, entry)])
+        out.append(ob("%s:cover:%d" % (fnid, i), fnid, status, "V", "z3", 0.0,
                       "precondition with '%s' is %s (must be sat: vacuity guard)" % (cov if isinstance(cov, str) else "cover", r)))
     if not contract.covers:
-        s = z3.Solver()
-        s.set("timeout", timeout_ms)
-        s.add(*entry.pc)
-        r = s.check()
-        out.append(ob("%s:cover:requires" % fnid, fnid, PROVED if r == z3.sat else FAILED, "V", "z3", 0.0,
+        r, status = sat_check([])
+        out.append(ob("%s:cover:requires" % fnid, fnid, status, "V", "z3", 0.0,
                       "precondition is %s (must be sat: vacuity guard)" % r))
     # canary: a wrong postcondition must be refuted
     if contract.canary is not None:
@@ -67,7 +72,7 @@ def verify(contract, module, qualname, variant=None, timeout_ms=10000):
                 if r != z3.unsat:
                     refuted = True
                     break
-            out.append(ob("%s:canary" % fnid, fnid, PROVED if refuted else FAILED, "V", "z3", 0.0,
+            out.append(ob("%s:canary" % fnid, fnid, PROVED if refuted else ERROR, "V", "z3", 0.0,
                           "deliberately wrong postcondition '%s' is %s" % (
                               contract.canary, "refuted (hypotheses are not contradictory)" if refuted else "PROVED: hypotheses contradictory")))
         except E.Unsupported as e:
@@ -92,7 +97,7 @@ def verify(contract, module, qualname, variant=None, timeout_ms=10000):
                 o["detail"] = "%s | real run: %s" % (o["detail"], w.get("observed", ""))
     if support:
         for o in out:
-            if "id" in o and o["status"] == FAILED:
+            if "id" in o and (o["status"] == FAILED or (o["status"] == ERROR and o["id"].endswith(":canary"))):
                 o["status"] = "unproved"
                 o["detail"] = "[proof lost: %s not discharged] %s" % (support[0]["id"].split(":", 1)[1], o["detail"])
         out.append({"_prooflost": fnid, "reason": "%d proof-support obligation(s) not discharged, first: %s" % (len(support), support[0]["id"])})
